@@ -303,6 +303,9 @@ def interp_obs(i, rnd, title):
               immediate_outdoor_crops=k("immediate_outdoor_crops"), new_stored_outdoor_crops=k("new_stored_outdoor_crops"))
     keq = {nm: k(nm + "_kcals_equivalent") for nm in ("stored_food", "seaweed", "cell_sugar", "scp", "greenhouse", "fish", "meat", "milk",
                                                       "immediate_outdoor_crops", "new_stored_outdoor_crops")}
+    # what the result says went to feed and to biofuel, per food (kcals per person per day)
+    use_keq = {f: dict(feed=k(f + "_feed_kcals_equivalent"), bio=k(f + "_biofuels_kcals_equivalent"))
+               for f in ("stored_food", "outdoor_crops", "seaweed", "cell_sugar", "scp")}
     csv = None
     import re
     fn = os.path.join("results", re.sub(r'[\\/*?:"<>|\n]', "_", title) + "_ykcals.csv")
@@ -315,7 +318,7 @@ def interp_obs(i, rnd, title):
             csv = None
         # (the file is left in place: a later run with the same title must overwrite it, not inherit from it)
     sha = series_sha(i)
-    return dict(round=rnd, pf=float(i.percent_people_fed), kcals_fed=fl(i.kcals_fed), percent=pf, kcals_eq=keq, csv=csv, all_series_sha=sha, reported_sha=reported_sha(i),
+    return dict(round=rnd, pf=float(i.percent_people_fed), kcals_fed=fl(i.kcals_fed), percent=pf, kcals_eq=keq, use_keq=use_keq, csv=csv, all_series_sha=sha, reported_sha=reported_sha(i),
                 feed_sum_keq=k("feed_sum_kcals_equivalent"), bio_sum_keq=k("biofuels_sum_kcals_equivalent"),
                 feed_sum=k("feed_sum"), bio_sum=k("biofuels_sum") if hasattr(i, "biofuels_sum") else None)
 
